@@ -26,6 +26,7 @@ from guppylang_internals.checker.expr_checker import ExprSynthesizer, to_bool
 from guppylang_internals.checker.stmt_checker import StmtChecker
 from guppylang_internals.diagnostic import Error, Note
 from guppylang_internals.error import GuppyError
+from guppylang_internals.nodes import InoutReturnSentinel
 from guppylang_internals.tys.param import Parameter
 from guppylang_internals.tys.ty import InputFlags, Type
 
@@ -309,6 +310,10 @@ def check_rows_match(row1: Row[Variable], row2: Row[Variable], bb: BB) -> None:
             # in error messages:
             ident = "Expression" if v1.name.startswith("%") else f"Variable `{v1.name}`"
             use = bb.containing_cfg.live_before[bb][v1.name].vars.used[v1.name]
+            if isinstance(use, InoutReturnSentinel) and v2.defined_at is not None:
+                # The implicit use of a borrowed argument at the end of the function has no
+                # source location: point to the definition with the other type instead
+                use = v2.defined_at
             err = BranchTypeError(use, ident)
             # We don't add a location to the type hint for the global variable,
             # since it could lead to cross-file diagnostics (which are not
